@@ -395,10 +395,76 @@ def run_gibbs(c, rec):
         np.random.seed()
 
 
+# ----------------------------------------------------------------------------- burn-in / thinning of a recorded chain
+
+@st.composite
+def burnthin_cases(draw, tier="quick"):
+    gk = draw(st.sampled_from(["image", "cont2d", "cont1d", "step", "default", "mapped_image"]))
+    if gk in ("image", "cont2d", "mapped_image"):
+        geom = {"kind": "image" if gk != "cont2d" else "cont2d", "shape": [draw(st.integers(2, 4)), draw(st.integers(2, 4))]}
+        if gk == "mapped_image":
+            geom = {"kind": "mapped", "base": geom, "map": "exp", "imap": True}
+    else:
+        geom = draw(gen.geom1d_spec(draw(st.integers(2, 5)), [gk]))
+    return {"geom": geom, "N": draw(st.integers(1, 20)), "Nw": draw(st.sampled_from([0, 0, 4])),
+            "Nb": draw(st.integers(0, 22)), "Nt": draw(st.integers(1, 7)), "seed": draw(st.integers(0, 10 ** 6)),
+            "interface": draw(st.sampled_from(["experimental", "legacy"]))}
+
+
+def run_burnthin(c, rec):
+    import cuqi
+    geom = gen.make_geometry(c["geom"])
+    n = gen.geom_par_dim(c["geom"])
+    N, Nb, Nt = c["N"], c["Nb"], c["Nt"]
+    tags = {"geometry": gen.geom_kind(c["geom"]).split("(")[0], "interface": c["interface"], "burn": "0" if Nb == 0 else "<N" if Nb < N else ">=N",
+            "thin": Nt > 1}
+    if rec.classify(tags, 0 < Nb < N or Nt > 1):
+        return
+    try:
+        np.random.seed(c["seed"])
+        target = cuqi.distribution.Gaussian(np.zeros(n), 1.0, geometry=geom)
+        states = []
+        if c["interface"] == "experimental":
+            smp = cuqi.experimental.mcmc.MH(target, scale=0.8, callback=lambda sample, i: states.append(np.array(sample, dtype=float).reshape(-1).copy()))
+            smp.warmup(c["Nw"]).sample(N)
+            S = smp.get_samples()
+            want = np.column_stack(states) if states else np.zeros((n, 0))
+            require(maxdiff(S.samples, want) == 0 if states else True, "harness: stored chain vs callback states")
+        else:
+            N = max(N, 2)   # (a single legacy sample is handed out as a bare array)
+            S = cuqi.sampler.MH(target, scale=0.8, x0=np.zeros(n)).sample(N, 0)
+        X = np.array(S.samples, dtype=float).copy()
+        require(X.shape[1] >= N, "harness: chain shorter than requested")
+        keep = list(range(X.shape[1]))[Nb::Nt]
+        views = [("parameters", lambda q: q), ("function values", lambda q: q.funvals), ("vectorised function values", lambda q: q.funvals.vector)]
+        for label, view in views:
+            refused, V = refuses(lambda: view(S))
+            if refused:
+                rec.count("view_refused:" + label)
+                continue
+            full = np.array(V.samples, dtype=float).copy()
+            if Nb >= full.shape[-1]:
+                refused, out = refuses(lambda: V.burnthin(Nb, Nt))
+                require(refused or out.Ns == 0, f"burn-in of the whole chain ({label}) returned states", Ns=None if refused else out.Ns)
+                continue
+            out = must(lambda: V.burnthin(Nb, Nt), f"burnthin on {label}")
+            got = np.array(out.samples, dtype=float)
+            require(out.Ns == len(keep) and got.shape == full[..., keep].shape,
+                    f"burnthin({Nb},{Nt}) of the chain held as {label} does not have the states Nb, Nb+Nt, ... of the chain",
+                    got_shape=got.shape, want_shape=full[..., keep].shape)
+            require(maxdiff(got, full[..., keep]) == 0, f"burnthin({Nb},{Nt}) of the chain held as {label}: the kept states are not states Nb, Nb+Nt, ... in order")
+            require(maxdiff(np.array(V.samples, dtype=float), full) == 0, "burnthin altered the chain it was applied to")
+            require(out.geometry == V.geometry, "burnthin changed the geometry of the chain")
+        require(maxdiff(np.array(S.samples, dtype=float), X) == 0, "burnthin altered the recorded chain")
+    finally:
+        np.random.seed()
+
+
 SUBCHECKS = [
     SubCheck("C14/experimental", run_exp, strategy=lambda tier: base_case(EXP, tier), n={"quick": 1200, "thorough": 20000},
              shards={"quick": 12, "thorough": 16}, shrink=False),
     SubCheck("C14/legacy", run_leg, strategy=lambda tier: base_case(LEG, tier), n={"quick": 800, "thorough": 12000},
              shards={"quick": 8, "thorough": 16}, shrink=False),
+    SubCheck("C14/burnthin", run_burnthin, strategy=burnthin_cases, n={"quick": 400, "thorough": 8000}, shards={"quick": 4, "thorough": 16}),
     SubCheck("C14/gibbs", run_gibbs, strategy=gibbs_cases, n={"quick": 160, "thorough": 2500}, shards={"quick": 8, "thorough": 16}, shrink=False),
 ]
